@@ -13,7 +13,7 @@ import fuzzylite as fl
 PID = "C18"
 MODULES = ["FlVerif.Props.C18"]
 NAMESPACE = "C18"
-TIE_A = []
+TIE_A = ["code:fuzzylite.operation.Operation.increment", "code:fuzzylite.exporter.FldExporter.write_from_scope"]
 RULE = ("engines with 1-4 input variables (Mamdani and Takagi-Sugeno) x requested sizes v (every perfect n-th power <= 2000 "
         "and its neighbours, random v, v = 1) x both scopes x active-variable subsets x header/inputs/outputs switches x "
         "separators x decimals; reader contents with comments, blank lines, indentation and skipped lines. non-trivial: "
@@ -28,7 +28,7 @@ LEVEL_TEXT = ("Lean theorems about the grid enumeration for ANY number of inputs
               "repaired root computation is exact from any floating-point guess), allVariables_rows, eachVariable_rows, "
               "inactive_variable_constant, reader_filter, header_switches. Correspondence: exported text vs the model's rows "
               "(row count, order, values), outputs vs the engine, reader filtering.")
-LEVEL_NOTE = ("Trusted: Lean kernel (core only, no Mathlib needed), the hand-written Op.Fld model tied to exporter.py by the "
+LEVEL_NOTE = ("Trusted: Lean kernel, the Op.Fld model (tied to operation.py / exporter.py by code_increment / code_grid; externals: what the loop reads of a variable, the float guess as an arbitrary function) and the "
               "correspondence, numpy.savetxt formatting, the float guess int(pow(v, 1/n)) (any guess is corrected - proved).")
 TECHNIQUE = "Lean 4 proof (induction on mixed-radix counters, integer roots) about a code-shaped model of the FLD grid loop + differential run of exports"
 
